@@ -75,7 +75,7 @@ class HierOps:
         for d in range(depth):
             kinds.append(ch.weighted([('str', 4), ('int', 4), ('date', 1), ('str2', 2)]))
         route = ch.weighted([('from_labels', 6), ('from_product', 2), ('from_tree', 2), ('from_index_items', 1),
-                             ('set_index_hierarchy', 2), ('level_add', 1), ('from_names', 1), ('frame_columns', 1)])
+                             ('set_index_hierarchy', 2), ('level_add', 1), ('from_names', 1), ('frame_columns', 1), ('concat_items', 2)])
         if route != 'from_labels':
             kinds = [k if k != 'date' else 'int' for k in kinds]
         if route == 'from_index_items':
@@ -85,6 +85,12 @@ class HierOps:
               'name': ch.choice([None, 'nm', {'t': ['p', 'q', 'r', 's'][:len(kinds)]}])}
         if route == 'from_names':
             op['labels'] = []
+            return op
+        if route == 'concat_items':
+            # Series.from_concat_items of default-indexed Series: the inner levels are auto-integer (map-less) indices
+            outers = ch.sample(LEVEL_POOLS['str'], ch.randint(1, 3))
+            op['kinds'] = ['str', 'int']
+            op['labels'] = [[o, i] for o in outers for i in range(ch.randint(1, 4))]
             return op
         if route == 'from_product':
             levels = []
@@ -343,6 +349,15 @@ class HierOps:
                     groups.append((t[0], []))
                 groups[-1][1].append(t[1])
             return cls.from_index_items([(k, sf.Index(v)) for k, v in groups]).rename(name)
+        if route == 'concat_items':
+            groups = []
+            for t in tuples:
+                if not groups or groups[-1][0] != t[0]:
+                    groups.append((t[0], 0))
+                groups[-1] = (t[0], groups[-1][1] + 1)
+            s_ = sf.Series.from_concat_items([(k, sf.Series(np.arange(n_) * 10)) for k, n_ in groups])
+            ih = s_.index.rename(name)
+            return cls(ih) if go else ih
         if route in ('set_index_hierarchy', 'frame_columns'):
             rows = [list(t) + [i] for i, t in enumerate(tuples)]
             f = sf.Frame.from_records(rows)
@@ -383,7 +398,7 @@ class HierOps:
         site = f'{cname}.{route}'
         if route == 'from_tree' and not tree:
             return 'skip'  # a dict cannot express it
-        if route in ('from_product', 'level_add', 'from_index_items') and not tree:
+        if route in ('from_product', 'level_add', 'from_index_items', 'concat_items') and not tree:
             return 'skip'
         st, r = call(self._build_ih, go, route, kinds, tuples, name, op)
         if not tree:
@@ -405,7 +420,7 @@ class HierOps:
             return 'not-ih'
         if route == 'from_names':
             name = r.name
-        m = IxM(type(r).__name__, tuples, r.name if route in ('level_add', 'from_names', 'set_index_hierarchy', 'frame_columns') else name, depth=len(kinds))
+        m = IxM(type(r).__name__, tuples, r.name if route in ('level_add', 'from_names', 'set_index_hierarchy', 'frame_columns', 'concat_items') else name, depth=len(kinds))
         e = self.add('ih', r, m, is_go(type(r).__name__), origin=site, h=op['out'])
         e.extra['kinds'] = list(kinds)
         self.check_ent(e, op, full=True)
